@@ -32,6 +32,7 @@ def g08(pid, tier, replay):
 
 def g09(pid, tier, replay):
     plan = {
+        "export": (48, 19) if tier == Q else (320, 23),
         "design": [("MC_GraphLaws", "GraphLaws_quick.cfg", 3000)] if tier == Q else
                   [("MC_GraphLaws", "GraphLaws_thorough.cfg", 7200), ("MC_GraphLaws", "GraphLaws_assoc.cfg", 3000)],
         "gens": [{"args": ["--mode", "laws", "--n", "250" if tier == Q else "3000", "--ids", "4", "--rich", "0.3"]},
